@@ -31,22 +31,26 @@ def _tenths(x):
 
 
 # ---------------------------------------------------------------------------------------------------
-# rename-insensitive view of a function: local variables (everything bound inside the function; not parameters, not
-# attributes) are renamed positionally, in order of first occurrence, to the names the documented source uses
-# (DOC_LOCALS). A harmless rename of a local therefore gives literally the documented tree and every matcher below
-# works unchanged; an added / removed / reordered binding shifts the names and is seen. `body_dump` is the same view
-# with position names v0, v1, ... (docstring dropped), used for the whole-body digests.
+# canonical view of a function (H1, H2). `_strip` drops what a harmless edit may change: docstrings, type annotations
+# (`x: T = v` becomes `x = v`, a bare `x: T` disappears), the TEXT of messages (arguments of `raise X(...)` - the exception
+# TYPE stays -, the message of `warnings.warn`, everything handed to `print` / `logging.*`). `_alpha` renames locals scope by
+# scope (function, lambda, comprehension) in the order of their BINDING occurrences; a name that is bound but never read
+# (every `_` discard, whatever it is called) becomes `_` and takes no slot, so renaming a local or one of several discards
+# changes nothing. Parameters of the function itself keep their (API) names. With `names` (DOC_LOCALS) the slots get the
+# names the documented source uses, so the matchers below read literally the documented statements; `body_lines` is the same
+# view with slot names v0, v1, ..., one normalised line per statement, used for the per-statement and whole-body digests.
 # ---------------------------------------------------------------------------------------------------
-DOC_LOCALS = {
+DOC_LOCALS = {   # documented name of slot 0, 1, ... (binding order; one slot per scope and name, discards take none)
     "RelionMotl.convert_angles_from_relion": ["relion_angles", "columns_exist", "item", "angles", "rot_ZYZ", "rot_zxz"],
     "RelionMotl.convert_angles_to_relion": ["rotations", "angles"],
     "RelionMotl.convert_shifts": ["motl_column", "rln_column"],
-    "RelionMotl.parse_tomo_id": ["micrograph_names", "i", "tomo_idx", "tomo_names", "j", "tomo_position"],
-    "RelionMotl.parse_subtomo_id": ["image_names", "i", "subtomo_idx", "subtomo_names", "j", "halfset_num", "c", "subtomo_id_num"],
+    "RelionMotl.parse_tomo_id": ["micrograph_names", "i", "tomo_idx", "tomo_names", "i", "j", "tomo_position", "i", "i"],
+    "RelionMotl.parse_subtomo_id": ["image_names", "i", "subtomo_idx", "subtomo_names", "i", "j", "halfset_num", "c", "subtomo_id_num", "i"],
     "RelionMotl.convert_to_motl": ["coord", "relion_column"],
     "RelionMotl.create_relion_df": ["relion_df", "coord"],
-    "RelionMotl.prepare_particles_data": ["pattern", "findings", "longest_sequence", "tomo_name", "subtomo_name", "shifts_name", "_", "relion_df", "tomo_sequence",
-                                          "tomo_digits", "find_longest_sequence", "subtomo_sequence", "subtomo_digits", "subtomo_t_sequence", "subtomo_t_digits"],
+    "RelionMotl.prepare_particles_data": ["find_longest_sequence", "test_string", "test_letter", "raise_error", "pattern", "findings", "longest_sequence", "tomo_name",
+                                          "subtomo_name", "shifts_name", "relion_df", "tomo_sequence", "tomo_digits", "row", "subtomo_sequence", "subtomo_digits",
+                                          "subtomo_t_sequence", "subtomo_t_digits", "row", "row"],
     "RelionMotl.get_version_specific_names": ["tomo_id_name", "subtomo_id_name", "shifts_id_names", "data_spec"],
     "RelionMotl.get_version_from_file": ["version", "s", "frame_index"],
     "RelionMotl.set_version": [],
@@ -54,63 +58,228 @@ DOC_LOCALS = {
     "RelionMotl.adapt_original_entries": ["original_data"],
     "Motl.get_coordinates": ["coord"],
     "Motl.get_angles": ["angles"],
+    "RelionMotl.write_out": ["relion_df", "optics_df", "frames", "specifiers"],
+    "RelionMotl.create_final_output": ["data_spec", "frames", "specifiers"],
 }
+_SCOPES = (ast.FunctionDef, ast.AsyncFunctionDef, ast.Lambda, ast.ListComp, ast.SetComp, ast.DictComp, ast.GeneratorExp)
 
 
-def _params(fn):
-    a = fn.args
-    return {x.arg for x in a.posonlyargs + a.args + a.kwonlyargs} | ({a.vararg.arg} if a.vararg else set()) | ({a.kwarg.arg} if a.kwarg else set())
+def _is_doc(st):
+    return isinstance(st, ast.Expr) and isinstance(st.value, ast.Constant) and isinstance(st.value.value, str)
+
+
+class _Strip(ast.NodeTransformer):
+    def _fn(self, n):
+        self.generic_visit(n)
+        n.returns = None
+        a = n.args
+        for x in a.posonlyargs + a.args + a.kwonlyargs + [y for y in (a.vararg, a.kwarg) if y is not None]:
+            x.annotation = None
+        if n.body and _is_doc(n.body[0]):
+            n.body = n.body[1:]
+        n.body = n.body or [ast.Pass()]
+        return n
+    visit_FunctionDef = visit_AsyncFunctionDef = _fn
+
+    def visit_AnnAssign(self, n):
+        self.generic_visit(n)
+        if n.value is None:
+            return ast.copy_location(ast.Pass(), n)
+        return ast.copy_location(ast.Assign(targets=[n.target], value=n.value), n)
+
+    def visit_Raise(self, n):
+        self.generic_visit(n)
+        if isinstance(n.exc, ast.Call):     # the exception TYPE is kept, the message is not
+            n.exc = ast.copy_location(ast.Call(func=n.exc.func, args=[], keywords=[]), n.exc)
+        return n
+
+    def visit_Call(self, n):
+        self.generic_visit(n)
+        f = ast.unparse(n.func)
+        if f in ("warnings.warn", "warn"):
+            n.args = n.args[1:]             # a category argument stays
+            n.keywords = [k for k in n.keywords if k.arg != "message"]
+        elif f == "print" or f.split(".")[0] in ("logging", "logger", "log"):
+            n.args, n.keywords = [], []
+        return n
+
+
+def _strip(fn):
+    return ast.fix_missing_locations(_Strip().visit(copy.deepcopy(fn)))
+
+
+def _alpha(fn, names=None):
+    """`fn` (already a private copy) with its locals renamed; returns (fn, [original name of slot 0, 1, ...])"""
+    recs = []          # dict(name, pos, read, keep, occ=[(node, attr)])
+
+    def bindings(scope, top):
+        out = {}
+
+        def add(name, node, keep=False):
+            if name not in out:
+                out[name] = dict(name=name, pos=(getattr(node, "lineno", 0), getattr(node, "col_offset", 0)), read=False, keep=keep, occ=[])
+        if isinstance(scope, (ast.FunctionDef, ast.AsyncFunctionDef, ast.Lambda)):
+            a = scope.args
+            for x in a.posonlyargs + a.args + a.kwonlyargs + [y for y in (a.vararg, a.kwarg) if y is not None]:
+                add(x.arg, x, keep=top)
+        skip = set()
+        todo = list(ast.iter_child_nodes(scope))
+        found = []
+        while todo:
+            n = todo.pop()
+            if isinstance(n, (ast.Global, ast.Nonlocal)):
+                skip.update(n.names)
+            if isinstance(n, (ast.FunctionDef, ast.AsyncFunctionDef, ast.ClassDef)):
+                found.append((n.name, n))
+            elif isinstance(n, ast.Name) and isinstance(n.ctx, (ast.Store, ast.Del)):
+                found.append((n.id, n))
+            elif isinstance(n, ast.ExceptHandler) and n.name:
+                found.append((n.name, n))
+            elif isinstance(n, ast.alias):
+                found.append(((n.asname or n.name).split(".")[0], n))
+            if not isinstance(n, _SCOPES + (ast.ClassDef,)):
+                todo.extend(ast.iter_child_nodes(n))
+        for name, node in sorted(found, key=lambda t: (getattr(t[1], "lineno", 0), getattr(t[1], "col_offset", 0))):
+            if name not in skip:
+                add(name, node)
+        return out
+
+    def resolve(chain, name):
+        for env in reversed(chain):
+            if name in env:
+                return env[name]
+        return None
+
+    def walk(scope, chain, top=False):
+        env = bindings(scope, top)
+        recs.extend(env.values())
+        chain = chain + [env]
+        if isinstance(scope, (ast.FunctionDef, ast.AsyncFunctionDef, ast.Lambda)):
+            a = scope.args
+            for x in a.posonlyargs + a.args + a.kwonlyargs + [y for y in (a.vararg, a.kwarg) if y is not None]:
+                env[x.arg]["occ"].append((x, "arg"))
+        todo = list(ast.iter_child_nodes(scope))
+        while todo:
+            n = todo.pop()
+            if isinstance(n, ast.Name):
+                r = resolve(chain, n.id)
+                if r is not None:
+                    r["occ"].append((n, "id"))
+                    if isinstance(n.ctx, ast.Load):
+                        r["read"] = True
+            elif isinstance(n, ast.AugAssign) and isinstance(n.target, ast.Name):
+                r = resolve(chain, n.target.id)
+                if r is not None:
+                    r["read"] = True
+            elif isinstance(n, ast.ExceptHandler) and n.name:
+                r = resolve(chain, n.name)
+                if r is not None:
+                    r["occ"].append((n, "name"))
+            if isinstance(n, (ast.FunctionDef, ast.AsyncFunctionDef, ast.ClassDef)):
+                r = resolve(chain, n.name)
+                if r is not None:
+                    r["occ"].append((n, "name"))
+            if isinstance(n, _SCOPES):
+                walk(n, chain)
+            else:
+                todo.extend(ast.iter_child_nodes(n))
+
+    walk(fn, [], top=True)
+    names = list(names or [])
+    order = []
+    for r in sorted((r for r in recs if not r["keep"]), key=lambda r: r["pos"]):
+        if not r["read"]:
+            new = "_"
+        else:
+            k = len(order)
+            order.append(r["name"])
+            new = names[k] if k < len(names) else f"v{k}"
+        for node, attr in r["occ"]:
+            setattr(node, attr, new)
+    return fn, order
 
 
 def _canon(fn, names=None):
-    """deep copy of `fn` with its locals renamed positionally (to `names`, then v<k>); docstring dropped"""
-    fn = copy.deepcopy(fn)
-    if fn.body and isinstance(fn.body[0], ast.Expr) and isinstance(fn.body[0].value, ast.Constant) and isinstance(fn.body[0].value.value, str):
-        fn.body = fn.body[1:] or [ast.Pass()]
-    params = _params(fn)
-    bound = set()
-    for n in ast.walk(fn):
-        if isinstance(n, ast.Name) and isinstance(n.ctx, (ast.Store, ast.Del)):
-            bound.add(n.id)
-        elif isinstance(n, (ast.FunctionDef, ast.AsyncFunctionDef, ast.ClassDef)) and n is not fn:
-            bound.add(n.name)
-        elif isinstance(n, ast.ExceptHandler) and n.name:
-            bound.add(n.name)
-    bound -= params   # parameters keep their (API) names also when the body re-binds them
-    occ = sorted(((n.lineno, n.col_offset, n.id) for n in ast.walk(fn) if isinstance(n, ast.Name) and n.id in bound))
-    order = []
-    for _, _, name in occ:
-        if name not in order:
-            order.append(name)
-    for n in ast.walk(fn):
-        if isinstance(n, (ast.FunctionDef, ast.ClassDef)) and n is not fn and n.name in bound and n.name not in order:
-            order.append(n.name)
-    names = list(names or [])
-    mapping = {}
-    for k, name in enumerate(order):
-        mapping[name] = names[k] if k < len(names) else f"v{k}"
-    for n in ast.walk(fn):
-        if isinstance(n, ast.Name) and n.id in mapping:
-            n.id = mapping[n.id]
-        elif isinstance(n, (ast.FunctionDef, ast.ClassDef)) and n is not fn and n.name in mapping:
-            n.name = mapping[n.name]
-        elif isinstance(n, ast.ExceptHandler) and n.name in mapping:
-            n.name = mapping[n.name]
-    return fn
+    return _alpha(_strip(fn), names)[0]
 
 
 def _fn(src, qual):
-    """the function `qual` of cryomotl.py, locals renamed to the documented names (see DOC_LOCALS)"""
+    """the function `qual` of cryomotl.py in canonical form, locals carrying the documented names (see DOC_LOCALS)"""
     return _canon(src.find(REL, qual), DOC_LOCALS.get(qual))
 
 
+def _u(n):
+    return ast.unparse(n).replace("\n", ";")
+
+
+def _flat(stmts, depth, out):
+    """one normalised line per statement: `<depth>|<text>`; compound statements give a header line and their bodies one level deeper"""
+    def put(text, st):
+        out.append((f"{depth}|{text}", getattr(st, "lineno", 0)))
+    for st in stmts:
+        if isinstance(st, ast.If):
+            put(f"if {_u(st.test)}:", st); _flat(st.body, depth + 1, out)
+            if st.orelse:
+                put("else:", st.orelse[0]); _flat(st.orelse, depth + 1, out)
+        elif isinstance(st, (ast.For, ast.AsyncFor)):
+            put(f"for {_u(st.target)} in {_u(st.iter)}:", st); _flat(st.body, depth + 1, out)
+            if st.orelse:
+                put("else:", st.orelse[0]); _flat(st.orelse, depth + 1, out)
+        elif isinstance(st, ast.While):
+            put(f"while {_u(st.test)}:", st); _flat(st.body, depth + 1, out)
+            if st.orelse:
+                put("else:", st.orelse[0]); _flat(st.orelse, depth + 1, out)
+        elif isinstance(st, (ast.With, ast.AsyncWith)):
+            put("with " + ",".join(_u(i) for i in st.items) + ":", st); _flat(st.body, depth + 1, out)
+        elif isinstance(st, ast.Try):
+            put("try:", st); _flat(st.body, depth + 1, out)
+            for h in st.handlers:
+                put(f"except {_u(h.type) if h.type else ''} as {h.name}:", h); _flat(h.body, depth + 1, out)
+            if st.orelse:
+                put("else:", st.orelse[0]); _flat(st.orelse, depth + 1, out)
+            if st.finalbody:
+                put("finally:", st.finalbody[0]); _flat(st.finalbody, depth + 1, out)
+        elif isinstance(st, (ast.FunctionDef, ast.AsyncFunctionDef)):
+            put(f"def {st.name}({_u(st.args)}):", st); _flat(st.body, depth + 1, out)
+        else:
+            put(_u(st), st)
+    return out
+
+
+def body_lines(src, qual):
+    """[(normalised line, source line number)] of the canonical body of `qual`"""
+    return _flat(_canon(src.find(REL, qual), None).body, 0, [])
+
+
 def body_dump(src, qual):
-    fn = _canon(src.find(REL, qual), None)
-    return [core.norm_expr(st).replace("\n", ";") for st in fn.body]
+    return [t for t, _ in body_lines(src, qual)]
+
+
+def _h(text, k):
+    return hashlib.sha256(text.encode()).hexdigest()[:k]
 
 
 def body_digest(src, qual):
-    return hashlib.sha256("\n".join(body_dump(src, qual)).encode()).hexdigest()[:20]
+    return _h("\n".join(body_dump(src, qual)), 20)
+
+
+def body_checked(src, qual):
+    """the normalised body (it goes into the evidence); when it is not the reviewed one the anchor fails and SAYS WHICH STATEMENT
+    moved, quoting the source line (item 5/6 of the round-5 work list: the whole-body digest alone cannot)"""
+    lines = body_lines(src, qual)
+    doc = DOC_STMTS.get(qual)
+    if doc is not None:
+        got = [_h(t, 6) for t, _ in lines]
+        if got != doc:
+            text = src.text(REL).split("\n")
+            k = next((i for i in range(min(len(got), len(doc))) if got[i] != doc[i]), min(len(got), len(doc)))
+            if k < len(lines):
+                ln = lines[k][1]
+                raise AnchorMissing(f"{qual}: statement {k + 1} is not statement {k + 1} of the {len(doc)} reviewed ones: {REL}:{ln}: `{text[ln - 1].strip()[:160]}` "
+                                    f"(normalised `{lines[k][0][:160]}`; the body has {len(got)} statements now)")
+            ln = lines[-1][1] if lines else 0
+            raise AnchorMissing(f"{qual}: the body ends after {len(got)} of the {len(doc)} reviewed statements (last one: {REL}:{ln}: `{text[ln - 1].strip()[:120] if ln else ''}`)")
+    return [t for t, _ in lines]
 
 
 def signature_defaults(src, qual):
@@ -287,7 +456,7 @@ def shifts(src):
         if isinstance(s, ast.If):
             cv = _ver_compare(s.test)
             if cv is None:
-                raise AnchorMissing("convert_shifts: version test")
+                raise AnchorMissing(f"convert_shifts: `if {ast.unparse(s.test)}:` is not a test `self.version <op> <constant>`")
             if len(s.body) != 1 or not isinstance(s.body[0], ast.Assign) or ast.unparse(s.body[0].targets[0]) != "self.df[motl_column]":
                 raise AnchorMissing("convert_shifts: body of the version test")
             v = s.body[0].value
@@ -307,13 +476,14 @@ def coords(src):
     cols = None
     for s in ast.walk(fn):
         if isinstance(s, ast.Assign) and ast.unparse(s.value) == "self.get_coordinates()" and isinstance(s.targets[0], ast.Subscript):
-            sl = s.targets[0].slice
-            if ast.unparse(s.targets[0].value) == "relion_df.loc" and isinstance(sl, ast.Tuple) and isinstance(sl.elts[0], ast.Slice):
-                cols = _strs(sl.elts[1], 3)
-            elif ast.unparse(s.targets[0].value) == "relion_df":   # whole-column replacement `relion_df[[...]] = ...` (the repair proposed for C03-K1)
-                cols = _strs(sl, 3)
+            # only the whole-column replacement `relion_df[[...]] = ...` (fix 9b145a8 / D30): `.loc[:, [...]] = floats` raises on int64 columns under pandas 3
+            if ast.unparse(s.targets[0].value) == "relion_df":
+                cols = _strs(s.targets[0].slice, 3)
+            else:
+                raise AnchorMissing(f"create_relion_df: the coordinates are not written by whole-column replacement: `{ast.unparse(s)[:120]}` "
+                                    "(expected `relion_df[[<3 columns>]] = self.get_coordinates()`)")
     if cols is None:
-        raise AnchorMissing("create_relion_df: relion_df.loc[:, [...]] = self.get_coordinates()")
+        raise AnchorMissing("create_relion_df: no `relion_df[[<3 columns>]] = self.get_coordinates()`")
     gc = _fn(src, "Motl.get_coordinates")
     first = next((s for s in gc.body if isinstance(s, ast.If)), None)
     if first is None or ast.unparse(first.test) != "tomo_number is None":
@@ -535,7 +705,54 @@ def version_fallback(src):
     raise AnchorMissing("create_relion_df: `if self.version is None: self.version = ...`")
 
 
-DEFAULT_SIGS = ["RelionMotl.__init__", "RelionMotl.create_relion_df", "RelionMotl.write_out", "emmotl2relion", "relion2emmotl", "stopgap2relion", "relion2stopgap"]
+def by_position(src):
+    """every value copied from the particle table `self.df` into a RELION frame (`relion_df[...] = ...`, `self.relion_df[...] = ...`) in
+    prepare_particles_data / create_relion_df / convert_to_motl, with HOW it is copied: by position (an array: `.values`, `.to_numpy()`) or
+    as a Series (pandas then aligns it on the row labels - wrong as soon as the labels are not 0..n-1; fixes C03-fix-1/2 of round 5)"""
+    out = []
+    for q in ("RelionMotl.prepare_particles_data", "RelionMotl.create_relion_df", "RelionMotl.convert_to_motl"):
+        fn = _fn(src, q)
+        for st in ast.walk(fn):
+            if not (isinstance(st, ast.Assign) and len(st.targets) == 1 and isinstance(st.targets[0], ast.Subscript)):
+                continue
+            tgt = st.targets[0]
+            if ast.unparse(tgt.value) not in ("relion_df", "self.relion_df"):
+                continue
+            if "self.df[" not in ast.unparse(st.value):
+                continue
+            arrays = any((isinstance(n, ast.Attribute) and n.attr == "values") or
+                         (isinstance(n, ast.Call) and isinstance(n.func, ast.Attribute) and n.func.attr == "to_numpy") for n in ast.walk(st.value))
+            out.append((q.split(".")[-1] + ":" + _u(tgt.slice).strip("'\""), arrays))
+    if not out:
+        raise AnchorMissing("no `relion_df[...] = <something of self.df>` assignment found in prepare_particles_data / create_relion_df / convert_to_motl")
+    return out
+
+
+def version_forwarded(src):
+    """which expression each stage of the export receives as its version: write_out -> create_relion_df / prepare_optics_data /
+    create_final_output, create_relion_df -> prepare_particles_data (the keyword decides the whole layout; C03-fix-3 of round 5)"""
+    out = []
+
+    def arg(call, kw, pos):
+        for k in call.keywords:
+            if k.arg == kw:
+                return _u(k.value)
+        if pos is not None and len(call.args) > pos:
+            return _u(call.args[pos])
+        return "<not passed>"
+    for q, callees in (("RelionMotl.write_out", (("create_relion_df", None), ("prepare_optics_data", 2), ("create_final_output", 2))),
+                       ("RelionMotl.create_relion_df", (("prepare_particles_data", 2),))):
+        fn = _fn(src, q)
+        for name, pos in callees:
+            calls = [n for n in ast.walk(fn) if isinstance(n, ast.Call) and _u(n.func) == "self." + name]
+            if len(calls) != 1:
+                raise AnchorMissing(f"{q}: {len(calls)} calls of self.{name} (expected one)")
+            out.append((q.split(".")[-1] + "->" + name, arg(calls[0], "version", pos)))
+    return out
+
+
+DEFAULT_SIGS = ["RelionMotl.__init__", "RelionMotl.create_relion_df", "RelionMotl.write_out", "emmotl2relion", "relion2emmotl", "stopgap2relion", "relion2stopgap",
+                "RelionMotl.prepare_particles_data", "RelionMotl.prepare_optics_data", "RelionMotl.create_final_output"]
 DOC_DEFAULTS = [
     "RelionMotl.default_version=3.1",
     "RelionMotl.__init__(input_motl=None,version=None,pixel_size=None,binning=None,optics_data=None)",
@@ -549,6 +766,9 @@ DOC_DEFAULTS = [
     "stopgap2relion(output_motl_path=None,tomo_format='',subtomo_format='',relion_version=3.1,pixel_size=1.0,binning=1.0,flip_handedness=False,tomo_dim=None,"
     "write_optics=False,optics_data=None,add_object_id=False,add_subunit_id=False)",
     "relion2stopgap(output_motl_path=None,update_coordinates=False,reset_index=False)",
+    "RelionMotl.prepare_particles_data(tomo_format='',subtomo_format='',version=None,pixel_size=None)",
+    "RelionMotl.prepare_optics_data(use_original_entries=True,optics_data=None,version=None)",
+    "RelionMotl.create_final_output(optics_df=None,version=None)",
 ]
 
 
@@ -562,24 +782,70 @@ def defaults(src):
 DIGEST_FNS = ["RelionMotl.set_pixel_size", "RelionMotl.set_version", "RelionMotl.get_version_from_file", "RelionMotl.convert_angles_from_relion",
               "RelionMotl.convert_angles_to_relion", "RelionMotl.convert_shifts", "RelionMotl.parse_tomo_id", "RelionMotl.parse_subtomo_id",
               "RelionMotl.convert_to_motl", "RelionMotl.adapt_original_entries", "Motl.get_coordinates", "Motl.get_angles",
-              "emmotl2relion", "relion2emmotl", "stopgap2relion", "relion2stopgap"]
+              "emmotl2relion", "relion2emmotl", "stopgap2relion", "relion2stopgap",
+              # round 5: the export chain itself and what the constructor / the file reader go through
+              "RelionMotl.__init__", "RelionMotl.read_in", "RelionMotl.set_version_specific_names", "RelionMotl.get_version_specific_names",
+              "RelionMotl.create_particles_data", "RelionMotl.prepare_optics_data", "RelionMotl.prepare_particles_data", "RelionMotl.create_final_output",
+              "RelionMotl.create_relion_df", "RelionMotl.write_out", "Motl.assign_column"]
+# reviewed bodies: 20-hex digest of the whole normalised body (the Lean obligation `bodies_documented`) and a 6-hex digest per statement (only used to say WHICH
+# statement changed; regenerate both with `PYTHONPATH=harness python harness/props/c03.py --doc-bodies` after reviewing a change of cryomotl.py)
 DOC_DIGESTS = {
-    'RelionMotl.set_pixel_size': '1b5c3f0c50d8ae26926a',
-    'RelionMotl.set_version': '346ecb6e55b93a6ba181',
-    'RelionMotl.get_version_from_file': 'c3e6af07950691c57236',
-    'RelionMotl.convert_angles_from_relion': '9fb4cee413da502df684',
-    'RelionMotl.convert_angles_to_relion': '82605eee039c6bde354e',
-    'RelionMotl.convert_shifts': 'b3b41f06be67edb42f16',
-    'RelionMotl.parse_tomo_id': '9524518d16f9afbaefaf',
-    'RelionMotl.parse_subtomo_id': '8055e1f9677c6f7c907b',
-    'RelionMotl.convert_to_motl': 'bc7775aa2dd4d6c8622d',
-    'RelionMotl.adapt_original_entries': '6454acff4e8920186214',
-    'Motl.get_coordinates': '5ec15ffea2dba941e082',
-    'Motl.get_angles': 'eeb264a64a5942bc12e4',
-    'emmotl2relion': 'd5c20eefdbf866a98707',
-    'relion2emmotl': '6933cca60b7eab0661a5',
-    'stopgap2relion': '17217d3e69e374b3ef33',
-    'relion2stopgap': 'ef4a72acfd7738b57520',
+    'RelionMotl.set_pixel_size': 'cd53bdb29134c160a510',
+    'RelionMotl.set_version': '35d3dc0cf51e83c4ca7e',
+    'RelionMotl.get_version_from_file': 'f32c676e1d521b4f3601',
+    'RelionMotl.convert_angles_from_relion': '51d6b0352c0f1037b8a6',
+    'RelionMotl.convert_angles_to_relion': 'c180a7a0cfb16f91e1a1',
+    'RelionMotl.convert_shifts': '4fda4c3f584c6a1c9544',
+    'RelionMotl.parse_tomo_id': '9509a7885857b17f53dd',
+    'RelionMotl.parse_subtomo_id': '46907eb095160cf307f7',
+    'RelionMotl.convert_to_motl': '640bcfd8a6893abe3549',
+    'RelionMotl.adapt_original_entries': '0ca7eb237685fa5b3211',
+    'Motl.get_coordinates': 'e3cb48df81065e87cb32',
+    'Motl.get_angles': 'f4be21b1166c0c9e5f82',
+    'emmotl2relion': '1c34729ae8e6fe45e675',
+    'relion2emmotl': '3a72b6332ec5e518e532',
+    'stopgap2relion': '1756133e4ec8e86ade22',
+    'relion2stopgap': '0950b80545c99734e1a9',
+    'RelionMotl.__init__': '864eeb9d483c83a319f3',
+    'RelionMotl.read_in': '2fc8cefe336ae15a138c',
+    'RelionMotl.set_version_specific_names': '5b8f37e5f907f7c4c889',
+    'RelionMotl.get_version_specific_names': '4db2210005d40ecac885',
+    'RelionMotl.create_particles_data': '956514c4140fe33faeee',
+    'RelionMotl.prepare_optics_data': '45829e896a26adb534b6',
+    'RelionMotl.prepare_particles_data': 'd9ce4e58767c007dd61c',
+    'RelionMotl.create_final_output': '0dff659bac8eece3fdc6',
+    'RelionMotl.create_relion_df': '66126693ca6c8b3baa27',
+    'RelionMotl.write_out': 'bbdd6b2a8ddc0e93ce9b',
+    'Motl.assign_column': '869bcbd14a2ecc04d20d',
+}
+DOC_STMTS = {
+    'RelionMotl.set_pixel_size': '0bd25b f1a38f 9e33a8 f14db6 e829d2 820d7c c31a2a a015c7 cdd80e 1cfacc d4e2ba 12d1fb ccdb70 eb0994 5a85ce adb1d7 4304eb f3aba6 9db7f3 7ba5a0'.split(),
+    'RelionMotl.set_version': '39f008 f1a38f e01674 7ddfa6 e829d2 b406f8 03bdbf f3aba6 b3e510 065d8a eb0994 94367a 1653be 1920d4 595a43 213111'.split(),
+    'RelionMotl.get_version_from_file': '3c6adc 345d19 af02a3 e29398 f3aba6 495ebe cb6904 65f172 7865e0 1920d4 22206c b41618'.split(),
+    'RelionMotl.convert_angles_from_relion': 'be2f9c 1aeee8 696b8b e49877 e829d2 6ebffb 7ba5a0 f3aba6 8d972d 451c5d 95a71e f0984f 2482eb b520b5 418003'.split(),
+    'RelionMotl.convert_angles_to_relion': '87676d e70d42 c3f83e bb0970 ddfc1a 6f82e8'.split(),
+    'RelionMotl.convert_shifts': 'db60e2 c5dfaa e2cfce d403f8 a20f6e 112aad'.split(),
+    'RelionMotl.parse_tomo_id': '6d5749 09a149 068739 8a4b61 f3aba6 da703d 6a777f 606940 91181f d95d50 e829d2 796195 f9a672 1abd8a eb0994 609830 651f35 2aa25a 172f3c eb0994 a1189e b779b9 7c05ac f577bb 221e81'.split(),
+    'RelionMotl.parse_subtomo_id': 'abcfa6 9cfc71 068739 8a4b61 f3aba6 da703d 6a777f 606940 7f61e6 98e38c 1920d4 5572ba e05971 941320 4f804f 83bf54 160727 934676 e18e3e 6baaff 932443 acba8f 752d44 eb0994 527306 5a55e2 8f6a32'.split(),
+    'RelionMotl.convert_to_motl': '3c138a af0c13 2b706f cf3e7f 1a3627 1ea175 2f4076 2e70cc fdc82a c5dfaa da17c5 a5f5f1 d6526a 42db7a ec67aa ddea6d 4a453f'.split(),
+    'RelionMotl.adapt_original_entries': '06ee0d 4fd591 0e08a9 216792 7ed7aa 1b39fc 8acf75 9cdec7 c15e6f e829d2 3d3d6f b41618'.split(),
+    'Motl.get_coordinates': 'e69a68 438adb e829d2 9fa134 b41618'.split(),
+    'Motl.get_angles': 'e69a68 af3587 e829d2 305d92 48051a'.split(),
+    'emmotl2relion': '2a9edb 0e9939 d5ae2f 52930a 9db2ad 681a5f 57a61e 2b84bc'.split(),
+    'relion2emmotl': 'c7fdc7 d5ae2f 52930a 0fcfbe 635195 818740 681a5f edb48f 2b84bc'.split(),
+    'stopgap2relion': 'ade866 0e9939 d5ae2f 52930a 9db2ad 681a5f 57a61e 2b84bc'.split(),
+    'relion2stopgap': '5ab83e 4c33d5 635195 818740 681a5f d2018a 2b84bc'.split(),
+    'RelionMotl.__init__': 'f467dd 8d76d1 c4aeca 85c6b5 d4c98c c6c649 974a08 8f73f6 8cf7e2 eaf248 a71b28 402bc6 bed2bf 4df6a4 f8e4e9 96223a a564ea db0fda f94c7b e3045c 171087 171e1a f3aba6 caeb3b 5e8c13 eb0994 efb1b8 8a483e 3277f7 1920d4 47008b e829d2 3df5b1 704f51 2f4076'.split(),
+    'RelionMotl.read_in': '5a03de a0cec1 ee1369 8b5e55 3bf980 d6beec 270410 578dbc'.split(),
+    'RelionMotl.set_version_specific_names': '5b8f37'.split(),
+    'RelionMotl.get_version_specific_names': '983433 5d5990 2480a2 819110 c5e8cb e69a23 c6f154 e829d2 796f34 9c2e26 56ad2b 2c8d68 14c03f f3aba6 40e4e1 f95e77 2c8d68 14c03f 89a6c5'.split(),
+    'RelionMotl.create_particles_data': '044ded 4ba37a e829d2 796f34 7e87dc f3aba6 30dbd0 b41618'.split(),
+    'RelionMotl.prepare_optics_data': '2f8d4b 6b563f 09bc0b 820d7c e54433 f3aba6 0bae7d e829d2 242517 8cb888 d1bf2c bcd380 1920d4 249cd4 eb0994 aefb09 4c2af6 1920d4 47008b f3aba6 44a903 dd2a54 eb0994 991ed3 d8167d 1920d4 993a28 b41618'.split(),
+    'RelionMotl.prepare_particles_data': '48760b 2c77ed 822f62 783696 333bba 395449 eb0994 994028 f3aba6 bb6fa1 d1de9f 983433 6b563f 3fa4e0 0d3cd3 179ba2 8125a1 574b6e f3385d e829d2 baa779 e8ce7f 972add b93440 f31027 b4d391 955414 e829d2 aa3f54 a00e9a e8ce7f 46afb6 f9c0d9 ca6144 14c1ed c14938 e97f27 bf11ce 376085 c33d03 215562'.split(),
+    'RelionMotl.create_final_output': '983433 f85a08 e829d2 4b9531 0ba38e 3d9c5d 16007d e829d2 50950f a9d75c 754cd3 f3aba6 fd0089 32b4e6 cda23c'.split(),
+    'RelionMotl.create_relion_df': '983433 d67600 810c81 6b563f 29027a d61c69 3fa4e0 0d3cd3 09bc0b aa5edd b13baf b900d0 163f6c 799264 22fcb0 e829d2 d6c6af 70aacc a32529 8e083b 8970bd 972042 500c8b bc39f3 ec3a04 8553a7 9843de 632978 072804 f9b8d0 72a241 1becc2 96e118 b72f64 b41618'.split(),
+    'RelionMotl.write_out': '1774a8 e1e497 9981db e829d2 e145a5 8c6d6e fd982f'.split(),
+    'Motl.assign_column': '86f5e1 1b8a76 dca186'.split(),
 }
 
 
@@ -603,6 +869,11 @@ DOC_RENUMBER = ["'rlnRandomSubset'inrelion_df.columnsandrelion_df['rlnRandomSubs
                 "foriinrange(1,self.df.shape[0]):;ifc%2==1andhalfset_num[i]==1or(c%2==0andhalfset_num[i]==0):;c+=2;else:;c+=1;subtomo_id_num.append(c)",
                 "self.df['subtomo_id']=subtomo_id_num"]
 DOC_SNIFF = [[[["rlnTomoName", "rlnTomoParticleName"]], 40], [[["rlnMicrographName"], ["rlnOriginXAngst"]], 31], [[["rlnMicrographName"], ["rlnOriginX"]], 30]]
+DOC_BY_POSITION = [["prepare_particles_data:tomo_name", True], ["prepare_particles_data:tomo_id", True], ["prepare_particles_data:subtomo_name", True],
+                   ["prepare_particles_data:tomo_id", True], ["prepare_particles_data:subtomo_id", True], ["create_relion_df:rlnClassNumber", True],
+                   ["create_relion_df:ccObjectName", True], ["create_relion_df:ccSubunitName", True], ["convert_to_motl:ccSubtomoID", True]]
+DOC_FORWARDED = [["write_out->create_relion_df", "version"], ["write_out->prepare_optics_data", "version"], ["write_out->create_final_output", "version"],
+                 ["create_relion_df->prepare_particles_data", "version"]]
 
 
 def translate(src):
@@ -629,9 +900,11 @@ def translate(src):
     pxs = A("set_pixel_size:rlnPixelSize-per-row", lambda: pixel_source(src))
     vf = A("create_relion_df:version-fallback", lambda: version_fallback(src))
     df = A("signature-defaults", lambda: defaults(src))
+    bp = A("frames-filled-by-position", lambda: [list(t) for t in by_position(src)])
+    vw = A("export-version-forwarded", lambda: [list(t) for t in version_forwarded(src)])
     dg = A("whole-body-digests", lambda: [[q, body_digest(src, q)] for q in DIGEST_FNS])
-    for q in DIGEST_FNS:   # the normalised bodies themselves go into the evidence (so a changed digest can be diffed)
-        A("body:" + q, lambda q=q: body_dump(src, q))
+    for q in DIGEST_FNS:   # the normalised bodies go into the evidence; a changed body fails HERE with the statement that moved
+        A("body:" + q, lambda q=q: body_checked(src, q))
     c30 = c30 or DOC["columnsV30"]; c31 = c31 or DOC["columnsV31"]; c4 = c4 or DOC["columnsV4"]
     nb = nb or DOC_BRANCHES
     ex = ex or ["ZXZ", "ZYZ", ["phi", "theta", "psi"], [("rlnAngleRot", True, 0), ("rlnAngleTilt", False, 1), ("rlnAnglePsi", True, 2)]]
@@ -650,6 +923,8 @@ def translate(src):
     vf = 31 if vf is None else vf
     df = df or DOC_DEFAULTS
     dg = dg or [[q, DOC_DIGESTS.get(q, "")] for q in DIGEST_FNS]
+    bp = bp or DOC_BY_POSITION
+    vw = vw or DOC_FORWARDED
     branches = "[" + ", ".join(f"({core.lean_str(b[0])}, {b[1]}, {core.lean_str(b[2])}, {core.lean_str(b[3])}, {core.lean_str_list(b[4])}, {core.lean_str(b[5])})" for b in nb) + "]"
     sniff = "[" + ", ".join("([" + ", ".join(core.lean_str_list(cl) for cl in r[0]) + f"], {r[1]})" for r in vs[0]) + "]"
     return f"""-- GENERATED by harness/props/c03.py from {REL}; do not edit
@@ -695,6 +970,8 @@ def pixelSizeFromColumn : String := {core.lean_str(pxs)}
 def exportVersionFallback : Nat := {vf}
 def defaults : List String := {core.lean_str_list(df)}
 def bodyDigests : List (String × String) := [{", ".join(f"({core.lean_str(a)}, {core.lean_str(b)})" for a, b in dg)}]
+def filledByPosition : List (String × Bool) := [{", ".join(f"({core.lean_str(a)}, {_b(b)})" for a, b in bp)}]
+def versionForwarded : List (String × String) := [{", ".join(f"({core.lean_str(a)}, {core.lean_str(b)})" for a, b in vw)}]
 end CryoCat.Gen.C03
 """
 
@@ -721,7 +998,13 @@ RULE = ("two case kinds from one PRNG. 'cc': a cryoCAT particle list (N in 1..30
         "order; version passed or SNIFFED from the columns; coordinates float or whole numbers held as int64 / written without decimal point) imported from a "
         "DataFrame (M) and from the file (F); in a share the same DataFrame object is imported twice (M2, frame compared with a pristine copy) and the same file path is "
         "rewritten with the rows reversed and imported again (F2); import -> drop/reorder rows -> create_relion_df(use_original_entries=True[, keep_all_entries=True]) "
-        "(U); relion2stopgap from the file (H). Orientation classes: uniform, gimbal lock (theta in {0,180,-180,360}), angles outside the canonical ranges, 45-degree "
+        "(U; the user's row selection with or without reset_index); relion2stopgap from the file (H). ROW LABELS (round 5): cc lists get non-default labels the way users get "
+        "them - cryoCAT's own remove_feature (scalar / list / array argument), a slice, a re-ordering, pd.concat (duplicated labels) - before create_relion_df / write_out, and the "
+        "converter functions get frames carrying such labels; rln DataFrames carry filtered / offset / permuted / duplicated labels. EXPORT VERSION (round 5): given to the "
+        "constructor, or only by the `version` keyword of create_relion_df / write_out, or by the keyword AGAINST another constructor version; version 3.0 also with write_optics "
+        "left at its default True (B0: the documented refusal `Warning`, anything else is judged). PIXEL SIZE: in a share of the >= 3.1 imports the explicit argument is given "
+        "NEXT TO a column / optics block (the argument wins, as documented). DTYPES: 8 % of the cc lists and 6 % of the rln tables have EVERY numeric column int64 (an "
+        "all-integer STAR table); a share of the positions / shifts are decimals with 2-3 places. Orientation classes: uniform, gimbal lock (theta in {0,180,-180,360}), angles outside the canonical ranges, 45-degree "
         "lattice, near-gimbal. Positions/shifts of either sign, on a 1/64 grid (exact through 6-decimal files) or arbitrary doubles. BINNING IS OUTSIDE THE QUANTIFIER: "
         "only binning=1 (or the keyword omitted where the default is 1 / unused) is generated. non-trivial = N>=2, some non-zero shift/origin, some theta outside "
         "{0,180} and a format or name with padding; distinct = distinct case content. Half-set columns with a single value (always so for N=1), parities disagreeing "
@@ -737,6 +1020,21 @@ ASSUMPTIONS = ["scipy Rotation.from_euler/as_euler: as_euler(seq) returns a trip
                "pandas to_numeric parses the decimal text of a STAR cell to the nearest double up to 1e-9 relative (file paths use tolerances)"]
 TRUSTED = ["harness STAR reader/writer in props/c03.py (read_star, write_relion_star)", "harness rotation matrices Rz/Ry/Rx (numpy cos/sin) in props/c03.py",
            "driver's own Euler extractors (Drv/C03 extractZYZ/extractzxz): their post-condition is checked per particle (`own_post` vs `fed`)"]
+# Tolerances (H4), each against its worst legitimate input. What is compared is always a 3x3 rotation MATRIX rebuilt from angles (or a position), never the angles:
+# the map angles -> matrix is 1-Lipschitz per angle (entries are products of cos/sin), so it is well conditioned everywhere, gimbal lock included - the
+# ill-conditioning of as_euler next to theta = 0/180 (angles off by ~ulp/sin(theta)) moves rot and psi in opposite directions and cancels in the product.
+#  TOL_MEM 1e-9  in memory: three angles up to 720 deg, each carrying <= ~8 ulp(720) = 9e-13 deg = 1.6e-14 rad from scipy's quaternion round trip and the harness's own
+#                radians(), plus ~1e-15 per matrix product: worst observed 4e-13; 1e-9 leaves three orders of magnitude and is far below any sign/slot error (>= 1e-5 for
+#                the generated angles, which are never within 1e-5 deg of a symmetric configuration except the exact gimbal classes).
+#  TOL_FILE 1e-6 through a STAR file: cryoCAT's writer prints repr(float) (exact), the harness's writer prints 6 decimals, i.e. <= 5e-7 deg = 8.7e-9 rad per angle,
+#                three angles -> <= 2.7e-8 on any matrix entry (first order); 1e-6 is 40x that.
+#  POS_TOL_FILE 1.5e-6 positions through cryoCAT's writer are exact (repr); through the harness's 6-decimal writer the generated values sit on the 1/64 grid or are
+#                whole numbers (exact in 6 decimals), so the only error is pandas' decimal parser (<= 1 ulp(4000) = 4.5e-13); 1.5e-6 covers a 6-decimal re-rounding of
+#                x + shift (<= 2 * 5e-7 + ulp) should a writer ever round. In memory positions and shifts are compared bit for bit (same IEEE operation on both sides;
+#                int64 x + float shift is exact for |x| < 2^53).
+#  TOL_MODEL 1e-11 Lean Float.cos/sin vs numpy on the same double: both within 1 ulp of the true value for |angle| <= 720 deg -> products differ by <= ~1e-15; 1e-11.
+#  TOL_POST 1e-8 post-condition of an Euler extractor (scipy's or the driver's own): matrix rebuilt from its answer vs the matrix fed: same estimate as TOL_MEM, kept one
+#                order looser because the driver's extractor normalises with a square root next to gimbal lock (error ~ sqrt(eps) * |sin theta| <= 1.5e-8 * 1e-2 there).
 TOL_MEM, TOL_FILE, TOL_MODEL, TOL_POST = 1e-9, 1e-6, 1e-11, 1e-8
 POS_TOL_FILE = 1.5e-6
 
@@ -909,23 +1207,33 @@ def gen_cc(rng, tier, force=None):
     force = force or {}
     ver = force.get("ver", rng.choice([30, 31, 40]))
     px = _px(rng)
-    n = _n(rng, tier)
+    n = force.get("n") or _n(rng, tier)
     tf, sf = _formats(rng, ver, px)
     cls_mix = rng.random() < 0.5
     acls = rng.choice(ANGLE_CLASSES)
     exact = rng.random() < 0.7
     xyz_int = force.get("xyz_int", rng.random() < 0.2)
+    # H3: a STAR / EM table whose cells are all whole numbers is read with EVERY column int64; positions / shifts with 2-3 decimals (off the dyadic grid)
+    all_int = force.get("all_int", (not xyz_int) and rng.random() < 0.08)
+    decimal = (not exact) and rng.random() < 0.5
     parts, ids = [], []
     tomos = sorted(rng.sample(range(0, 400), rng.randint(1, min(4, n))))
     subs = _sub_ids(rng, n)
     for i in range(n):
         a = _angles(rng, rng.choice(ANGLE_CLASSES) if cls_mix else acls)
-        if xyz_int:
+        if all_int:
+            a = _angles(rng, "lattice")
+            pos = [float(rng.randint(-500, 4000)) for _ in range(3)]
+            sh = [float(rng.randint(-8, 8)) for _ in range(3)]
+        elif xyz_int:
             pos = [float(rng.randint(-500, 4000)) for _ in range(3)]
             sh = [_grid(rng, -8, 8) for _ in range(3)] if exact else [rng.uniform(-8, 8) for _ in range(3)]
         elif exact:
             pos = [_grid(rng, -500, 4000) for _ in range(3)]
             sh = [0.0 if rng.random() < 0.2 else _grid(rng, -8, 8) for _ in range(3)]
+        elif decimal:
+            pos = [round(rng.uniform(-500, 4000), rng.choice([2, 3])) for _ in range(3)]
+            sh = [round(rng.uniform(-8, 8), rng.choice([2, 3])) for _ in range(3)]
         else:
             pos = [rng.uniform(-500, 4000) for _ in range(3)]
             sh = [rng.uniform(-8, 8) for _ in range(3)]
@@ -959,8 +1267,32 @@ def gen_cc(rng, tier, force=None):
         omit.append("c_version")        # re-import of the exported frame: version sniffed from its columns
     if ver < 40 and P(0.4):
         omit.append("c_pixel_size")     # re-import of the exported frame: pixel size from its rlnPixelSize column
+    # round 5, item 1: row labels. A particle list that was filtered (cryoCAT's own remove_feature), sliced out of a larger one, sorted, or concatenated has
+    # row labels other than 0..n-1; nothing in the statement depends on them
+    idx = force.get("idx", rng.choice(["default", "default", "filter", "slice", "perm", "concat"]))
+    if idx == "concat" and n < 2:
+        idx = "filter"
+    if idx == "filter":      # positions (in the enlarged table) of particles of class 99 that remove_feature("class", 99) takes out again
+        k = rng.randint(1, 3)
+        idx_arg = sorted(rng.sample(range(n + k), k))
+        if idx_arg == list(range(n, n + k)):   # only trailing victims would leave the labels 0..n-1
+            idx_arg[0] = 0
+    elif idx == "slice":
+        idx_arg = rng.randint(1, 5)
+    elif idx == "perm":
+        idx_arg = list(range(n)); rng.shuffle(idx_arg)
+        if n >= 2 and idx_arg == list(range(n)):
+            idx_arg[0], idx_arg[1] = idx_arg[1], idx_arg[0]
+    elif idx == "concat":
+        idx_arg = rng.randint(1, n - 1)
+    else:
+        idx_arg = None
+    # round 5, item 2: the export version given by the `version` keyword of create_relion_df / write_out instead of (or against) the constructor's
+    ver_by = force.get("ver_by", "ctor" if "version" in omit else rng.choice(["ctor", "ctor", "kw", "kw-other"]))
+    ctor_ver = rng.choice([v for v in (30, 31, 40) if v != ver]) if ver_by == "kw-other" else None
     return dict(kind="cc", ver=ver, px=f2b(px), tomo_fmt=tf, sub_fmt=sf, optics=optics, parts=parts, ids=ids,
-                angles=("mixed" if cls_mix else acls), grid=exact, xyz_int=xyz_int, omit=omit, share_df=force.get("share_df", P(0.35)), sg=P(0.3))
+                angles=("mixed" if cls_mix else acls), grid=exact, xyz_int=xyz_int, all_int=all_int, omit=omit, share_df=force.get("share_df", P(0.35)), sg=P(0.3),
+                idx=idx, idx_arg=idx_arg, ver_by=ver_by, ctor_ver=ctor_ver, wo30=(ver == 30 and P(0.5)))
 
 
 def rln_columns(case):
@@ -987,7 +1319,7 @@ def gen_rln(rng, tier, force=None):
     force = force or {}
     ver = force.get("ver", rng.choice([30, 31, 40]))
     px = _px(rng)
-    n = _n(rng, tier)
+    n = force.get("n") or _n(rng, tier)
     acls = rng.choice(ANGLE_CLASSES)
     tomos = sorted(rng.sample(range(0, 400), rng.randint(1, min(4, n))))
     kx, ky = rng.choice([1, 2, 3, 5]), rng.choice([1, 3, 4, 6])
@@ -997,12 +1329,18 @@ def gen_rln(rng, tier, force=None):
         subs = [rng.randint(1, n // 2 + 1) for _ in range(n)]
     hs_mode = rng.choice(["both", "both", "single", "none"]) if n >= 2 else rng.choice(["single", "none"])
     coord_int = force.get("coord_int", rng.random() < 0.15)
+    # H3: a table whose numeric cells are ALL whole numbers (every numeric column int64 in the frame, no decimal point in the file)
+    all_int = force.get("all_int", coord_int and rng.random() < 0.4)
+    if all_int:
+        acls = "lattice"
     rows, tn, sn, tids, cl = [], [], [], [], []
     for i in range(n):
         a = _angles(rng, acls)
         a = [round(v, 6) for v in a]
         co = [float(rng.randint(-200, 4000)) for _ in range(3)] if coord_int else [_grid(rng, -200, 4000) for _ in range(3)]
         og = [0.0 if rng.random() < 0.15 else _grid(rng, -30, 30) for _ in range(3)]
+        if all_int:
+            og = [float(rng.randint(-30, 30)) for _ in range(3)]
         rows.append([f2b(v) for v in co + og + a])
         t = rng.choice(tomos)
         tids.append(t); cl.append(rng.randint(0, 9))
@@ -1043,9 +1381,31 @@ def gen_rln(rng, tier, force=None):
     ver_arg = "sniff" if (can_sniff and rng.random() < 0.4) else "explicit"
     # pixel size argument omitted: irrelevant for 3.0, documented default 1.0 otherwise
     omit_px = (pxsrc == "arg") and ((ver == 30 and rng.random() < 0.3) or (ver >= 31 and px == 1.0 and rng.random() < 0.6))
+    # round 5, item 1: row labels of the RELION DataFrame handed in (a table the user filtered / sliced / sorted / concatenated keeps its labels)
+    idx = force.get("idx", rng.choice(["default", "default", "filter", "offset", "perm", "dup"]))
+    if idx == "filter":
+        labels = sorted(rng.sample(range(n + 3), n))
+        if labels == list(range(n)):
+            labels = [v + 1 for v in labels]
+    elif idx == "offset":
+        k = rng.randint(1, 50); labels = list(range(k, k + n))
+    elif idx == "perm":
+        labels = list(range(n)); rng.shuffle(labels)
+        if n >= 2 and labels == list(range(n)):
+            labels[0], labels[1] = labels[1], labels[0]
+    elif idx == "dup":       # pd.concat of two tables without ignore_index
+        a_ = rng.randint(1, n - 1) if n >= 2 else 1
+        labels = list(range(a_)) + list(range(n - a_))
+    else:
+        labels = None
+    # round 5, item 7: the explicit pixel_size argument next to a pixel size the data carry (column / optics block): the argument wins (documented in set_pixel_size)
+    px_arg = None
+    if ver >= 31 and (pxsrc == "column" or with_optics) and rng.random() < 0.3:
+        px_arg = f2b(rng.choice([v for v in (1.0, 1.35, 2.5, 3.42, 7.0) if v != px]))
     case = dict(kind="rln", ver=ver, px=f2b(px), pxs=[f2b(v) for v in pxs], pxsrc=pxsrc, optics=optics, rows=rows, tomo_names=tn, sub_names=sn,
                 tomo_ids=tids, sub_ids=subs, halfsets=halfsets, cls=cl, angles=acls, style=rng.randint(0, 5), tomo_col=tomo_col, ver_arg=ver_arg,
-                omit_px=omit_px, coord_int=coord_int, reuse=force.get("reuse", rng.random() < 0.35), colorder=None, uoe=None, sg=False)
+                omit_px=omit_px, coord_int=coord_int, all_int=all_int, reuse=force.get("reuse", rng.random() < 0.35), colorder=None, uoe=None, sg=False,
+                idx=idx, labels=labels, px_arg=px_arg)
     if force.get("shuffle", rng.random() < 0.4):
         k = len(rln_columns(case))
         perm = list(range(k)); rng.shuffle(perm)
@@ -1054,7 +1414,8 @@ def gen_rln(rng, tier, force=None):
         m = rng.randint(1, n)
         perm = rng.sample(range(n), m)
         keep = rng.random() < 0.25
-        case["uoe"] = dict(perm=perm, keep_all=keep, newcls=([rng.randint(0, 9) for _ in perm] if (not keep and rng.random() < 0.5) else None))
+        case["uoe"] = dict(perm=perm, keep_all=keep, newcls=([rng.randint(0, 9) for _ in perm] if (not keep and rng.random() < 0.5) else None),
+                           reset=rng.random() < 0.5)   # whether the user resets the row labels after selecting rows
     # relion2stopgap has no pixel-size argument: only where the file itself (or the default 1.0 / version 3.0) settles it
     if (pxsrc == "column" or with_optics or ver == 30 or px == 1.0) and rng.random() < 0.3:
         case["sg"] = True
@@ -1071,6 +1432,9 @@ def generate(rng, tier, n):
                 ids = [[1 + i // 40, i + 1, 1] for i in range(len(chunk))]
                 yield dict(kind="cc", ver=ver, px=f2b(2.5), tomo_fmt="" if ver == 40 else "/t/TS_$xxx.rec", sub_fmt="TS_$xxx/$yyyy" if ver == 40 else "/s/TS_$xxx_$yyyy_2.5A.mrc",
                            optics=(ver >= 31), parts=parts, ids=ids, angles="lattice", grid=True)
+        for ver in (30, 31, 40):    # the size bound the quantifier names: 300 particles, with non-default row labels
+            yield gen_cc(rng, tier, dict(ver=ver, n=300, idx=rng.choice(["filter", "perm", "concat"])))
+            yield gen_rln(rng, tier, dict(ver=ver, n=300, idx=rng.choice(["filter", "perm", "dup"]), uoe=True))
     for _ in range(n):
         yield gen_cc(rng, tier) if rng.random() < 0.5 else gen_rln(rng, tier)
 
@@ -1078,7 +1442,7 @@ def generate(rng, tier, n):
 def shrink(case):
     key = "parts" if case["kind"] == "cc" else "rows"
     per_row = ["parts", "ids"] if case["kind"] == "cc" else ["rows", "tomo_names", "sub_names", "tomo_ids", "sub_ids", "cls"] + (["halfsets"] if case.get("halfsets") else []) \
-        + (["pxs"] if case.get("pxs") else [])
+        + (["pxs"] if case.get("pxs") else []) + (["labels"] if case.get("labels") else [])
     n = len(case[key])
 
     def take(idx):
@@ -1091,6 +1455,14 @@ def shrink(case):
             perm = [idx.index(case["uoe"]["perm"][k]) for k in keepk]
             nc = case["uoe"].get("newcls")
             c["uoe"] = dict(case["uoe"], perm=perm or [0], newcls=(([nc[k] for k in keepk] or [nc[0]]) if nc else None))
+        m = len(idx)
+        if case["kind"] == "cc" and case.get("idx") in ("filter", "perm", "concat"):   # the label recipe must fit the new length
+            if case["idx"] == "filter":
+                c["idx_arg"] = [0]
+            elif m >= 2:
+                c["idx_arg"] = list(range(m))[::-1] if case["idx"] == "perm" else 1
+            else:
+                c["idx"], c["idx_arg"] = "slice", 1
         return c
     if n > 1:
         yield take(range(n // 2))
@@ -1107,9 +1479,13 @@ def shrink(case):
             yield dict(case, optics=False, omit=[o for o in case.get("omit", []) if o != "write_optics"])
         if case.get("omit"):
             yield dict(case, omit=[])
-        for flag in ("share_df", "sg"):
+        for flag in ("share_df", "sg", "wo30", "all_int", "xyz_int"):
             if case.get(flag):
                 yield dict(case, **{flag: False})
+        if case.get("idx", "default") != "default":
+            yield dict(case, idx="default", idx_arg=None)
+        if case.get("ver_by", "ctor") != "ctor":
+            yield dict(case, ver_by="ctor", ctor_ver=None)
         if b2f(case["px"]) != 2.0 and "conv_pixel_size" not in case.get("omit", []):
             yield dict(case, px=f2b(2.0))
         simple = [[f2b(v) for v in (10.0 + i, 20.0, 30.0, 0.5, -0.25, 0.0, 10.0, 20.0, 30.0)] for i in range(n)]
@@ -1118,9 +1494,14 @@ def shrink(case):
             yield dict(case, parts=[p[:6] + s[6:] for p, s in zip(case["parts"], simple)])
             yield dict(case, parts=[s[:6] + p[6:] for p, s in zip(case["parts"], simple)])
     else:
-        for flag, off in (("reuse", False), ("sg", False), ("uoe", None), ("colorder", None), ("coord_int", False), ("omit_px", False)):
+        for flag, off in (("reuse", False), ("sg", False), ("uoe", None), ("colorder", None), ("all_int", False), ("coord_int", False), ("omit_px", False),
+                          ("px_arg", None)):
             if case.get(flag):
                 yield dict(case, **{flag: off})
+        if case.get("labels"):
+            yield dict(case, idx="default", labels=None)
+        if case.get("uoe") and not case["uoe"].get("reset", True):
+            yield dict(case, uoe=dict(case["uoe"], reset=True))
         if case.get("ver_arg") == "sniff":
             yield dict(case, ver_arg="explicit")
         if not case.get("tomo_col", True):
@@ -1139,7 +1520,7 @@ def _i(v, text=None, where=""):
     """identifier cell: numeric -> int when integral (else repr of the float); text is RECORDED as text, never coerced (G3)"""
     if _isnum(v):
         f = float(v)
-        return int(f) if f == int(f) else repr(f)
+        return int(f) if (math.isfinite(f) and f == int(f)) else repr(f)     # NaN / inf cells are reported as they are (never an exception of the harness)
     if text is not None:
         text.append([where, repr(v)[:60]])
     return {"text": str(v)[:60]}
@@ -1194,7 +1575,7 @@ def _file_rows_obs(cols, spec, rows, ver):
         if not NUM_TOKEN.match(t):
             text.append([c, t[:60]]); return {"text": t[:60]}
         f = float(t)
-        return int(f) if f == int(f) else repr(f)
+        return int(f) if (math.isfinite(f) and f == int(f)) else repr(f)
     for i in range(len(rows)):
         out.append(dict(coord=[num(i, "rlnCoordinate" + c) for c in "XYZ"], origin=[(num(i, o) if o in cols else None) for o in onames],
                         ang=[num(i, a) for a in ("rlnAngleRot", "rlnAngleTilt", "rlnAnglePsi")],
@@ -1279,10 +1660,11 @@ def rln_table(case):
     tname, sname, onames, _ = DOC_NAMES[ver]
     cint = case.get("coord_int", False)
     cv = (lambda v: int(v)) if cint else (lambda v: float(v))
+    av = (lambda v: int(v)) if case.get("all_int") else (lambda v: v)     # origins and angles too: every numeric column int64
     data = {"rlnCoordinateX": [cv(r[0]) for r in R], "rlnCoordinateY": [cv(r[1]) for r in R], "rlnCoordinateZ": [cv(r[2]) for r in R],
-            "rlnAngleRot": [r[6] for r in R], "rlnAngleTilt": [r[7] for r in R], "rlnAnglePsi": [r[8] for r in R],
-            tname: list(case["tomo_names"]), sname: list(case["sub_names"]), onames[0]: [r[3] for r in R], onames[1]: [r[4] for r in R],
-            onames[2]: [r[5] for r in R], "rlnClassNumber": list(case["cls"]), "rlnOpticsGroup": [1] * n,
+            "rlnAngleRot": [av(r[6]) for r in R], "rlnAngleTilt": [av(r[7]) for r in R], "rlnAnglePsi": [av(r[8]) for r in R],
+            tname: list(case["tomo_names"]), sname: list(case["sub_names"]), onames[0]: [av(r[3]) for r in R], onames[1]: [av(r[4]) for r in R],
+            onames[2]: [av(r[5]) for r in R], "rlnClassNumber": list(case["cls"]), "rlnOpticsGroup": [1] * n,
             "rlnPixelSize": [b2f(b) for b in case.get("pxs", [case["px"]] * n)]}
     if case["halfsets"] is not None:
         data["rlnRandomSubset"] = list(case["halfsets"])
@@ -1300,49 +1682,118 @@ def run_impl(case):
         if case["kind"] == "cc":
             n = len(case["parts"])
             omit = set(case.get("omit", []))
-            vals = np.zeros((n, 20))
-            df = pd.DataFrame(vals, columns=MOTL_COLS)
-            P = np.array([[b2f(b) for b in p] for p in case["parts"]], dtype=float).reshape(n, 9)
-            for k, c in enumerate(["x", "y", "z", "shift_x", "shift_y", "shift_z", "phi", "theta", "psi"]):
-                df[c] = P[:, k]
-            if case.get("xyz_int"):
-                for c in ("x", "y", "z"):
-                    df[c] = df[c].astype("int64")
-            df["tomo_id"] = [float(t[0]) for t in case["ids"]]
-            df["subtomo_id"] = [float(t[1]) for t in case["ids"]]
-            df["class"] = [float(t[2]) for t in case["ids"]]
-            df["score"] = np.linspace(0.1, 0.9, n)
-            pristine = df.copy(deep=True)
+            P = [[b2f(b) for b in p] for p in case["parts"]]
+            idx, iarg = case.get("idx", "default"), case.get("idx_arg")
+
+            def table(rows, labels=None):
+                """rows: particle numbers of the case, None = a particle of class 99 that is filtered out again"""
+                df = pd.DataFrame(np.zeros((len(rows), 20)), columns=MOTL_COLS)
+                vals = [(P[r] if r is not None else [1.0 + k, 2.0, 3.0, 0.0, 0.0, 0.0, 10.0, 20.0, 30.0]) for k, r in enumerate(rows)]
+                for k, c in enumerate(["x", "y", "z", "shift_x", "shift_y", "shift_z", "phi", "theta", "psi"]):
+                    df[c] = np.array([v[k] for v in vals], dtype=float)
+                df["tomo_id"] = [float(case["ids"][r][0]) if r is not None else 0.0 for r in rows]
+                df["subtomo_id"] = [float(case["ids"][r][1]) if r is not None else float(9000 + k) for k, r in enumerate(rows)]
+                df["class"] = [float(case["ids"][r][2]) if r is not None else 99.0 for r in rows]
+                df["score"] = np.linspace(0.1, 0.9, len(rows))
+                if case.get("all_int"):        # every cell a whole number: this is how such a table comes out of a STAR file (all columns int64)
+                    df["score"] = np.arange(len(rows), dtype=float)
+                    df = df.astype("int64")
+                elif case.get("xyz_int"):
+                    for c in ("x", "y", "z"):
+                        df[c] = df[c].astype("int64")
+                if labels is not None:
+                    df.index = labels
+                return df
+            # what RelionMotl is built from for the export calls A / B (row labels of the INPUT frame are dropped by the constructor; the labels under test
+            # arise afterwards, the way a user gets them: cryoCAT's own filter, a slice, a re-ordering, a concatenation) ...
+            if idx == "filter":
+                vic = set(iarg); it = iter(range(n))
+                dfs = [table([None if k in vic else next(it) for k in range(n + len(iarg))])]
+            elif idx == "slice":
+                dfs = [table([None] * iarg + list(range(n)))]
+            elif idx == "perm":
+                inv = [0] * n
+                for k, v in enumerate(iarg):
+                    inv[v] = k
+                dfs = [table(inv)]          # row perm[i] of the frame is particle i: `m.df.iloc[perm]` restores the order of the case
+            elif idx == "concat":
+                dfs = [table(list(range(iarg))), table(list(range(iarg, n)))]
+            else:
+                dfs = [table(list(range(n)))]
+            # ... and what the converter functions get: the particles themselves, in a frame carrying such labels
+            lab = {"filter": lambda: [2 * k + 1 for k in range(n)], "slice": lambda: list(range(iarg, iarg + n)), "perm": lambda: list(iarg),
+                   "concat": lambda: list(range(iarg)) + list(range(n - iarg))}.get(idx)
+            conv = dfs[0] if idx == "default" else table(list(range(n)), lab())
+            owned = dfs + ([] if idx == "default" else [conv])
+            pristine = [d.copy(deep=True) for d in owned]
             share = bool(case.get("share_df"))
-            inp = (lambda: df) if share else (lambda: df.copy())
-            mut = (lambda: _frame_diff(pristine, df)) if share else (lambda: [])
+            inp = (lambda k=0: dfs[k]) if share else (lambda k=0: dfs[k].copy())
+            inp_conv = (lambda: conv) if share else (lambda: conv.copy())
+            mut = (lambda: [x for a_, b_ in zip(pristine, owned) for x in _frame_diff(a_, b_)]) if share else (lambda: [])
             fm = {} if "formats" in omit else dict(tomo_format=case["tomo_fmt"], subtomo_format=case["sub_fmt"])
             rk = dict(pixel_size=px)
-            if "version" not in omit:
+            ver_by = "ctor" if "version" in omit else case.get("ver_by", "ctor")
+            kwv = {}                       # the `version` keyword of create_relion_df / write_out (round 5, item 2)
+            if "version" in omit:
+                pass
+            elif ver_by == "ctor":
                 rk["version"] = VERS[ver]
-            if "binning" not in omit:
+            else:
+                kwv["version"] = VERS[ver]
+                if ver_by == "kw-other":
+                    rk["version"] = VERS[case["ctor_ver"]]
+            if "binning" not in omit or ver_by != "ctor":
                 rk["binning"] = 1.0
             state = {}
 
+            def motl():
+                """the particle list of the case as a RelionMotl, with the row labels of the case's label kind"""
+                m = cryomotl.RelionMotl(inp(0), **rk)
+                if idx == "filter":
+                    m.remove_feature("class", [99.0, np.array([99.0]), 99.0][len(iarg) % 3])
+                elif idx == "slice":
+                    m.df = m.df.iloc[iarg:]
+                elif idx == "perm":
+                    m.df = m.df.iloc[list(iarg)]
+                elif idx == "concat":
+                    m.df = pd.concat([m.df, cryomotl.RelionMotl(inp(1), **rk).df])
+                state["labels"] = [int(v) for v in m.df.index[:6]]
+                return m
+
             def a():
-                m = cryomotl.RelionMotl(inp(), **rk)
-                r = m.create_relion_df(**fm)
+                m = motl()
+                r = m.create_relion_df(**fm, **kwv)
                 state["r"] = r
-                o = _export_obs(r, m.data_spec, ver); o["mut"] = mut()
+                o = _export_obs(r, (m.data_spec if ver_by == "ctor" else None), ver); o["mut"] = mut(); o["labels"] = state.get("labels")
                 return o
             _attempt(out, "A", a)
             path = os.path.join(td, "out.star")
 
             def b():
-                m = cryomotl.RelionMotl(inp(), **rk)
+                m = motl()
                 wk = dict(fm)
                 if not ("write_optics" in omit and case["optics"]):
                     wk["write_optics"] = case["optics"]
-                m.write_out(path, **wk)
+                m.write_out(path, **wk, **kwv)
                 state["file"] = True
                 o = _file_export_obs(path, ver); o["mut"] = mut()
                 return o
             _attempt(out, "B", b)
+            if ver == 30 and case.get("wo30"):
+                # round 5, item 3: the most natural 3.0 call, write_optics left at its default True. There is no optics information for 3.0, and
+                # prepare_optics_data DOCUMENTS (and the pinned tests assert) that it then raises `Warning`: a documented refusal. Anything else that is
+                # raised is a finding; a file that is written instead is judged like any other export.
+                path0 = os.path.join(td, "out0.star")
+
+                def b0():
+                    m = motl()
+                    try:
+                        m.write_out(path0, **fm, **kwv)
+                    except Warning as e:
+                        return dict(refused=type(e).__name__)
+                    o = _file_export_obs(path0, ver); o["mut"] = mut(); o["default_optics"] = True
+                    return o
+                _attempt(out, "B0", b0)
             if "r" in state:
                 ck = {}
                 if "c_version" not in omit:
@@ -1372,7 +1823,7 @@ def run_impl(case):
             p2 = os.path.join(td, "conv.star")
 
             def e():
-                cryomotl.emmotl2relion(inp(), p2, **ek)
+                cryomotl.emmotl2relion(inp_conv(), p2, **ek)
                 em = cryomotl.relion2emmotl(p2, **(dict(pixel_size=px) if (ver == 40 and not case["optics"]) else {}))
                 o = _motl_obs(em); o["mut"] = mut()
                 return o
@@ -1381,7 +1832,7 @@ def run_impl(case):
                 p3 = os.path.join(td, "sg.star")
 
                 def g():
-                    cryomotl.stopgap2relion(inp(), p3, **ek)
+                    cryomotl.stopgap2relion(inp_conv(), p3, **ek)
                     o = _file_export_obs(p3, ver); o["mut"] = mut()
                     return o
                 _attempt(out, "G", g)
@@ -1389,6 +1840,8 @@ def run_impl(case):
             n = len(case["rows"])
             cols, data = rln_table(case)
             rdf = pd.DataFrame({c: data[c] for c in cols})
+            if case.get("labels"):          # a table the user filtered / sliced / sorted / concatenated: its row labels are not 0..n-1
+                rdf.index = list(case["labels"])
             pristine = rdf.copy(deep=True)
             use_col = case["pxsrc"] == "column"
             reuse = bool(case.get("reuse"))
@@ -1398,6 +1851,8 @@ def run_impl(case):
                 mk["version"] = VERS[ver]
             if not use_col and not case.get("omit_px"):
                 mk["pixel_size"] = px
+            if use_col and case.get("px_arg") is not None:      # argument AND column: the argument is documented to win
+                mk["pixel_size"] = b2f(case["px_arg"])
             state = {}
 
             def m_():
@@ -1423,7 +1878,9 @@ def run_impl(case):
 
                 def u_():
                     m = state["m"]
-                    m.df = m.df.iloc[list(u["perm"])].reset_index(drop=True)   # the user drops / reorders particles
+                    m.df = m.df.iloc[list(u["perm"])]                          # the user drops / reorders particles
+                    if u.get("reset", True):
+                        m.df = m.df.reset_index(drop=True)                     # ... and may or may not reset the row labels
                     if u.get("newcls"):
                         m.df["class"] = [float(c) for c in u["newcls"]]            # ... and re-classifies them
                     uk = dict(use_original_entries=True)
@@ -1439,6 +1896,8 @@ def run_impl(case):
             with_optics = case["optics"] and ver >= 31
             write_relion_star(path, ver, cols, rows, optics_px=(px if with_optics else None), style=case.get("style", 0))
             fk = {} if (use_col or with_optics or case.get("omit_px")) else dict(pixel_size=px)
+            if case.get("px_arg") is not None and (use_col or with_optics):    # argument AND column / optics block: the argument wins
+                fk = dict(pixel_size=b2f(case["px_arg"]))
             _attempt(out, "F", lambda: _motl_obs(cryomotl.RelionMotl(path, **fk)))
             if case.get("sg"):
                 def h_():
@@ -1469,6 +1928,29 @@ def _import_req(ver, rows9, px_bits, tn, sn, halfsets, cls, cols, out_ang):
     return q
 
 
+def _rln_px(case, tag):
+    """pixel size (bits) of each row of an 'rln' case as the call behind `tag` must see it: explicit argument > rlnPixelSize column > optics block > 1.0
+    (documented in set_pixel_size). M/M2/U get a DataFrame (no optics block), F/F2 the file, H (relion2stopgap) the file without any argument."""
+    n = len(case["rows"])
+    use_col = case["pxsrc"] == "column"
+    with_optics = bool(case["optics"]) and case["ver"] >= 31
+    one, px, pxs = [f2b(1.0)] * n, [case["px"]] * n, list(case.get("pxs", [case["px"]] * n))
+    arg = case.get("px_arg")
+    if tag in ("M", "M2", "U"):
+        if use_col:
+            return [arg] * n if arg is not None else pxs
+        return one if case.get("omit_px") else px
+    if tag in ("F", "F2"):
+        if arg is not None and (use_col or with_optics):
+            return [arg] * n
+        if use_col:
+            return pxs
+        if with_optics:
+            return px
+        return one if case.get("omit_px") else px
+    return pxs if use_col else (px if with_optics else one)     # H
+
+
 def _finite_bits(rows, keys):
     return all(all((b is not None and math.isfinite(b2f(b))) for k in keys for b in r[k]) for r in rows)
 
@@ -1480,8 +1962,8 @@ def _plan(case, obs):
         return plan
     if case["kind"] == "cc":
         n = len(case["parts"])
-        for tag in ("A", "B", "G"):
-            if _ok(obs.get(tag)) and len(obs[tag]["rows"]) == n and _finite_bits(obs[tag]["rows"], ["ang"]):
+        for tag in ("A", "B", "B0", "G"):
+            if _ok(obs.get(tag)) and "rows" in obs[tag] and len(obs[tag]["rows"]) == n and _finite_bits(obs[tag]["rows"], ["ang"]):
                 plan.append((tag, _export_req(case, obs[tag])))
         for tag, src in (("C", "A"), ("D", "B")):
             if _ok(obs.get(tag)) and _ok(obs.get(src)) and len(obs[tag]["rows"]) == len(obs[src]["rows"]) == n:
@@ -1498,13 +1980,11 @@ def _plan(case, obs):
         n = len(case["rows"])
         cols = rln_columns(case)
         tn = list(case["tomo_names"]) if case.get("tomo_col", True) else [None] * n
-        pxs = case.get("pxs", [case["px"]] * n)
-        if case["pxsrc"] == "arg" and case.get("omit_px"):
-            pxs = [f2b(1.0)] * n      # documented default of set_pixel_size (irrelevant for 3.0)
         for tag in ("M", "M2", "F", "H", "F2"):
             if _ok(obs.get(tag)) and len(obs[tag]["rows"]) == n and _finite_bits(obs[tag]["rows"], ["ang"]):
                 rev = tag == "F2"
                 R = lambda l: (list(l)[::-1] if rev else list(l))
+                pxs = _rln_px(case, tag)
                 plan.append((tag, _import_req(case["ver"], R(case["rows"]), R(pxs), R(tn), R(case["sub_names"]), (R(case["halfsets"]) if case["halfsets"] is not None else None),
                                               R(case["cls"]), cols, [r["ang"] for r in obs[tag]["rows"]])))
     return plan
@@ -1569,9 +2049,9 @@ def _judge_export(tag, case, ex, resp, out, dev):
     if missing:
         S("export-columns", f"version {ver/10}: columns {missing} missing from {ex['cols']}")
         return
-    if ex["spec"] != spec:
+    if ex["spec"] is not None and ex["spec"] != spec:   # (in memory: the object's data_spec, judged only when the constructor was given the export version)
         S("export-data-spec", f"version {ver/10}: block {ex['spec']!r}, RELION expects {spec!r}")
-    if not mem:
+    if not mem and not ex.get("default_optics"):
         want = (["data_optics"] if case["optics"] else []) + [spec]
         if ex.get("specs") != want:
             S("export-blocks", f"file holds blocks {ex.get('specs')}, expected {want}")
@@ -1789,12 +2269,11 @@ def judge(case, obs, resps):
     plan = _plan(case, obs)
     rmap = {tag: resps[k] for k, (tag, _) in enumerate(plan)} if len(resps) == len(plan) else {}
     ver, px = case["ver"], b2f(case["px"])
-    tags = ("A", "B", "C", "D", "E", "G") if case["kind"] == "cc" else ("M", "M2", "U", "F", "H", "F2")
-    _errors(case, obs, tags, out)
+    tags = ("A", "B", "B0", "C", "D", "E", "G") if case["kind"] == "cc" else ("M", "M2", "U", "F", "H", "F2")
     if case["kind"] == "cc":
         P = [[b2f(b) for b in p] for p in case["parts"]]
-        for tag in ("A", "B", "G"):
-            if _ok(obs.get(tag)):
+        for tag in ("A", "B", "B0", "G"):
+            if _ok(obs.get(tag)) and "refused" not in obs[tag]:     # B0 refused with `Warning`: the documented answer to write_optics=True without optics data (3.0)
                 _judge_export(tag, case, obs[tag], rmap.get(tag), out, dev)
         hs = [_halfset(t[1]) for t in case["ids"]]
         base = dict(pos=[[p[k] + p[3 + k] for k in range(3)] for p in P], xyz=None, shift=None, rot=[mat_particle(p[6], p[7], p[8]) for p in P], relin=None,
@@ -1807,20 +2286,22 @@ def judge(case, obs, resps):
         R = [[b2f(b) for b in r] for r in case["rows"]]
         n = len(R)
         ang = ver >= 31
-        pxs = [b2f(b) for b in case.get("pxs", [case["px"]] * n)]
-        if case["pxsrc"] == "arg" and case.get("omit_px"):
-            pxs = [1.0] * n
-        shift = [[((-r[3 + k]) / pxs[i] if ang else -r[3 + k]) for k in range(3)] for i, r in enumerate(R)]
-        truth = dict(pos=[[r[k] + s[k] for k in range(3)] for r, s in zip(R, shift)], xyz=[r[:3] for r in R], shift=shift, rot=None, origin=[r[3:6] for r in R],
+
+        def truth_for(tag):
+            """what the statement demands of the call behind `tag` (the pixel size that call must see differs between the entry points, see _rln_px)"""
+            pxs = [b2f(b) for b in _rln_px(case, tag)]
+            shift = [[((-r[3 + k]) / pxs[i] if ang else -r[3 + k]) for k in range(3)] for i, r in enumerate(R)]
+            t = dict(pos=[[r[k] + s[k] for k in range(3)] for r, s in zip(R, shift)], xyz=[r[:3] for r in R], shift=shift, rot=None, origin=[r[3:6] for r in R],
                      relin=[mat_relion(r[6], r[7], r[8]) for r in R], tomo=list(case["tomo_ids"]), geom3=list(case["sub_ids"]), cls=list(case["cls"]), halfsets=case["halfsets"])
-        rev = {k: (v[::-1] if isinstance(v, list) else v) for k, v in truth.items()}
+            return {k: (v[::-1] if isinstance(v, list) else v) for k, v in t.items()} if tag == "F2" else t
         for tag, ptol in (("M", 0), ("M2", 0), ("F", 1e-9), ("H", 1e-9), ("F2", 1e-9)):
             if _ok(obs.get(tag)):
                 o = obs[tag]
                 want_ver = ver if (tag in ("F", "F2") or (tag in ("M", "M2") and o.get("sniffed"))) else None
-                _judge_import(tag, case, o, rmap.get(tag), dict(rev if tag == "F2" else truth, ptol=ptol, rtol=1e-8, version=want_ver), out, dev)
+                _judge_import(tag, case, o, rmap.get(tag), dict(truth_for(tag), ptol=ptol, rtol=1e-8, version=want_ver), out, dev)
         if case.get("uoe") and _ok(obs.get("U")):
-            _judge_original_entries("U", case, obs["U"], truth, out, dev)
+            _judge_original_entries("U", case, obs["U"], truth_for("U"), out, dev)
+    _errors(case, obs, tags, out)    # after the judged clauses: a wrong export is named before the exception its re-import ends in
     STATS[id(case)] = dev
     # de-duplicate by clause, keep the first detail
     seen, uniq = set(), []
@@ -1831,13 +2312,7 @@ def judge(case, obs, resps):
 
 
 def classify(case, obs, finding):
-    """C03-K1: `create_relion_df(use_original_entries=True)` on a table whose rlnCoordinate columns were loaded as int64 (whole-number coordinates) raises in
-    `relion_df.loc[:, [rlnCoordinateX..Z]] = self.get_coordinates()` (pandas 3 refuses the lossy float -> int64 assignment) as soon as a kept particle has a
-    non-integral complete position. Exactly that class, nothing else."""
-    if finding.get("clause") == "raises:U" and case.get("kind") == "rln" and case.get("coord_int") and case.get("uoe") and not case["uoe"].get("keep_all"):
-        o = obs.get("U") if isinstance(obs, dict) else None
-        if isinstance(o, dict) and "Invalid value" in o.get("error", "") and "int64" in o.get("error", "") and o.get("where", "").startswith("cryomotl.py"):
-            return "C03-K1"
+    """C03 has no open known finding (C03-K1 was repaired as D30 / 9b145a8; its rule is gone): nothing is ever classified."""
     return None
 
 
@@ -1859,7 +2334,7 @@ def stats(case, obs, resps):
     n = len(rows)
     d = {"kind": case["kind"], "version": case["ver"] / 10, "N": "1" if n == 1 else ("2-25" if n <= 25 else ("26-80" if n <= 80 else "81-300")),
          "angles": case.get("angles", "?"), "optics": str(case.get("optics")),
-         "paths_ok": [t for t in ("A", "B", "C", "D", "E", "G", "M", "M2", "U", "F", "H", "F2") if _ok(obs.get(t))] if "error" not in obs else [],
+         "paths_ok": [t for t in ("A", "B", "B0", "C", "D", "E", "G", "M", "M2", "U", "F", "H", "F2") if _ok(obs.get(t))] if "error" not in obs else [],
          "gimbal_particles": "yes" if any((b2f(r[7]) % 180.0) == 0.0 for r in rows) else "no"}
     if case["kind"] == "cc":
         d["formats"] = ("tomo:" + ("plain" if not case["tomo_fmt"] else "fmt")) + " sub:" + ("plain" if not case["sub_fmt"] else "fmt")
@@ -1867,7 +2342,12 @@ def stats(case, obs, resps):
         d["halfsets"] = "both" if len(set(s % 2 for s in subs)) == 2 else "single"
         d["sub_ids"] = "unique" if len(set(subs)) == n else "repeated"
         d["omitted_keywords"] = list(case.get("omit", [])) or ["none"]
-        d["xyz_dtype"] = "int64" if case.get("xyz_int") else "float64"
+        d["xyz_dtype"] = "all-columns-int64" if case.get("all_int") else ("int64" if case.get("xyz_int") else "float64")
+        d["row_labels"] = case.get("idx", "default")
+        d["export_version_given_by"] = "default" if "version" in case.get("omit", []) else case.get("ver_by", "ctor")
+        if case.get("wo30"):
+            b0 = obs.get("B0") if "error" not in obs else None
+            d["v3.0_default_write_optics"] = "refused:" + b0["refused"] if (_ok(b0) and "refused" in b0) else ("written" if _ok(b0) else "raised")
         d["same_frame_for_every_call"] = str(bool(case.get("share_df")))
         d["version_sniffed_on_reimport"] = str(bool(_ok(obs.get("C")) and obs["C"].get("sniffed")))
     else:
@@ -1877,9 +2357,11 @@ def stats(case, obs, resps):
         d["tomo_column"] = "present" if case.get("tomo_col", True) else "absent(fallback)"
         d["column_order"] = "shuffled" if case.get("colorder") else "canonical"
         d["version_given"] = case.get("ver_arg", "explicit")
-        d["coordinate_dtype"] = "int64" if case.get("coord_int") else "float64"
+        d["coordinate_dtype"] = "all-columns-int64" if case.get("all_int") else ("int64" if case.get("coord_int") else "float64")
+        d["row_labels"] = case.get("idx", "default")
+        d["pixel_size_argument_and_data"] = "both" if case.get("px_arg") is not None else "one"
         d["same_frame_twice+same_path_rewritten"] = str(bool(case.get("reuse")))
-        d["use_original_entries"] = "no" if not case.get("uoe") else ("keep_all" if case["uoe"].get("keep_all") else "yes")
+        d["use_original_entries"] = "no" if not case.get("uoe") else (("keep_all" if case["uoe"].get("keep_all") else "yes") + ("" if case["uoe"].get("reset", True) else "+labels-kept"))
         if _ok(obs.get("M")):
             d["motl_dtype_kinds"] = "".join(sorted(set(obs["M"].get("kinds", {}).values())))
         d["sub_ids"] = "unique" if len(set(case["sub_ids"])) == n else "repeated"
@@ -1931,16 +2413,35 @@ def probes(rng):
 LEVEL_TEXT = ("Lean 4 theorems about an executable model of RelionMotl's conversion (export_is_transpose/export_is_inverse, import_is_transpose/import_is_inverse, "
               "export_import_orientation, export_import_pose, export_coord, import_coord, import_shift_pixels/import_shift_angstrom/import_shift_total, version_names, sniff_version, "
               "halfset_parity, renumber_spec, renumber_halfset, import_ids_halfset, import_ids_nodup, import_identity (geom3 = parsed number, class unchanged), class_survives, "
-              "zfill_parse, names_parse_v3/v4, names_generated_v3/v4, names_parse_fallback_v3/v4) for all orientations incl. gimbal lock, all positions/shifts/per-row pixel sizes, "
+              "zfill_parse, names_parse_v3/v4, names_generated_v3/v4, names_parse_fallback_v3/v4; under the global contract `EulerOK` of as_euler on proper rotations: "
+              "export_is_inverse_of_contract, import_is_inverse_of_contract, export_import_pose_of_contract; over the reals with explicit extractors meeting the contract, NO "
+              "hypothesis on the Euler service: eulerOK_real, export_is_inverse_real, import_is_inverse_real, export_import_pose_real, export_import_pose_degrees) for all orientations incl. gimbal lock, all positions/shifts/per-row pixel sizes, "
               "all id lists; every model function fails (Option) instead of defaulting on what the code would reject, and the theorems prove it does not fail on the documented "
               "tables; tied to the source by rename-insensitive regenerated anchors (Euler sequences, slot/sign pattern, shift sign/scaling operator, version dispatch and sniffing, "
-              "half-set table, column lists, fallback tomogram parsing, signature defaults, whole-body digests of 16 functions) and by a differential run of the real "
+              "half-set table, column lists, fallback tomogram parsing, signature defaults, by-position filling of the RELION frames, forwarding of the version keyword, whole-body "
+              "digests of 27 functions with per-statement diagnostics) and by a differential run of the real "
               "export/import (in memory, through files, through the four converters, with original entries, with omitted keywords, with re-used caller frames / rewritten paths) "
+              "with non-default / duplicated row labels, with the export version given by keyword, with all-int64 tables) "
               "against the model (run with the driver's own Euler extractor) and an independent statement of the convention")
-LEVEL_NOTE = ("scipy's as_euler enters the theorems only through its post-condition (a hypothesis, checked numerically for every generated particle and probed); the model is "
+LEVEL_NOTE = ("scipy's as_euler enters the theorems only through its post-condition (a hypothesis, checked numerically for every generated particle and probed; over the reals the "
+              "post-condition is PROVED satisfiable for every proper rotation at once - `eulerOK_real` - which removes the hypothesis from the `_real` theorems but does not say that "
+              "scipy is that extractor); the model is "
               "executed with the driver's own extractor whose post-condition is checked the same way; file round trips are validated within 6-decimal STAR precision, not "
               "proved; the $-format substitution is proved to carry the numbers for the documented format shapes (one $x.. and one $y.. sequence); other formats (repeated / "
               "leftover sequences) are compared string for string with the model only; binning is outside the quantifier (always 1); whole-body digests are opaque: a changed "
               "digest says that a frozen function changed, the normalised bodies in the evidence say where")
 TECHNIQUE = "Lean 4 proof (matrix identities over any commutative ring, field arithmetic, list induction) + regenerated tables/operators/defaults/body digests + differential correspondence"
 DESIGN_REF = "DESIGN.md section 4, C03; Appendix A.4"
+
+
+if __name__ == "__main__":   # `PYTHONPATH=harness python harness/props/c03.py --doc-bodies`: the literals DOC_DIGESTS / DOC_STMTS for the tree in CRYOCAT_REPO (default /repo)
+    import sys
+    if "--doc-bodies" in sys.argv:
+        _src = core.Source(os.environ.get("CRYOCAT_REPO") or None)
+        print("DOC_DIGESTS = {")
+        for _q in DIGEST_FNS:
+            print(f"    {_q!r}: {body_digest(_src, _q)!r},")
+        print("}\nDOC_STMTS = {")
+        for _q in DIGEST_FNS:
+            print(f"    {_q!r}: {' '.join(_h(t, 6) for t in body_dump(_src, _q))!r}.split(),")
+        print("}")
